@@ -44,7 +44,8 @@ def hist_records():
         other = recs.build_record(rs("sel/other", [["string", "o"], ["varint", "n"], ["string[]", "l"]], ["'other'", "77", "['a', 'b']"]))
         grouped = GroupedRecord("sel/grouped", [recs.build_record(selgrammar.RECORDS[5]), recs.build_record(
             rs("sel/other", [["string", "o"], ["varint", "n"]], ["'other'", "1"]))])
-        _RECS.extend(base + [other, grouped, recs.build_record(selgrammar.SAME_NAME_OTHER_FIELDS), recs.build_record(selgrammar.SAME_NAMES_OTHER_TYPES)])
+        _RECS.extend(base + [other, grouped, recs.build_record(selgrammar.SAME_NAME_OTHER_FIELDS), recs.build_record(selgrammar.SAME_NAMES_OTHER_TYPES),
+                      recs.build_record(selgrammar.TWIN1), recs.build_record(selgrammar.TWIN2)])
     return _RECS
 
 
@@ -193,6 +194,9 @@ VALS = {
     "B": rs("t/b", [["string", "b"], ["string[]", "l"]], ["'x'", "['x', 'q']"]),
     "x3": rs("t/a", [["string", "a"], ["varint", "n"]], ["'xx'", "3"]),
     "x9": rs("t/a", [["string", "a"], ["varint", "n"]], ["'x'", "9"]),  # equals x1 when n is ignored for comparison
+    # two types of one name whose (name, hash) identifiers coincide
+    "T1": rs("t/k", [["stringlist", "a"], ["string", "b"]], ["['x', 'q']", "'y'"]),
+    "T2": rs("t/k", [["string", "a"], ["string", "listb"]], ["'q'", "'x'"]),
 }
 ADAPTERS = {
     "streamreader": ["x1", "y2", "Xn", "B"],
@@ -403,7 +407,7 @@ def _run_adapter(case):
 
 def cases(tier):
     L = 4 if tier == "thorough" else 3
-    nrec = 8
+    nrec = 10
     for expr in SSEL:
         for k in range(1, L + 1):
             for hist in itertools.product(range(nrec), repeat=k):
@@ -426,6 +430,11 @@ def cases(tier):
                 if adapter in ("avro", "avro-url+fileobj") and k == 0:
                     continue
                 yield {"kind": "adapter", "adapter": adapter, "seq": list(seq)}
+    for adapter in ("streamreader", "path", "jsonfile", "sqlite", "concat"):
+        for k in (2, 3):
+            for seq in itertools.product(["T1", "T2", "x1"], repeat=k):
+                if "T1" in seq and "T2" in seq:
+                    yield {"kind": "adapter", "adapter": adapter, "seq": list(seq)}
     # the same under an active comparison-ignore configuration: records that differ only in an ignored field are "equal"
     for adapter in ("streamreader", "path", "path.gz", "fileobj", "jsonfile", "sqlite"):
         for k in (2, 3):
